@@ -170,7 +170,7 @@ func c12AMinuteLater(rt *rapid.T) string {
 
 func TestC12(t *testing.T) {
 	V.Rule("lab: rapid state machines over 2-8 simultaneous client connections to one TCP listener, all from one loopback address (one address of the process's private block stands in for 127.0.0.1), each request announcing a Via sent-by drawn from a set of 1-3 values that are shared between connections (equal sent-by on different connections is the common case), with or without rport, pairwise distinct branches that share a stem and end in a small running number (one is often a prefix of another), listen entries with received-support on and off; requests go to UDP and TCP backends; the backends answer outstanding transactions in any order across connections, 1xx (0-3 per transaction) before the single final response, INVITE and non-INVITE, CANCEL of a pending INVITE (same branch, answered independently); unrelated UDP traffic and new connections in between; now and then a sent-by that names the real source port of another live connection, and once per history up to 160 complete transactions on the connections while others stay pending; on a separate instance a user agent connection and the connection to a TCP backend carry a provisional response, stay idle for 5.3 s (thorough 7.5 s) and must then still carry the final response. unit: a Proxy object driven synchronously through the product's own steps with 2-8 scripted connections sharing a sent-by, the once-a-minute sweep of the transport table forced between requests and between answers (the sweep clock moved back by 61 s), answers in a drawn order. Oracle: every response is read on the connection whose request it answers and on no other connection; nothing is dialled to the announced sent-by address or to (client address, sent-by port), where the harness listens. non-trivial = history with >= 2 connections sharing a sent-by and >= 2 transactions open at once answered in another order than sent; distinct by history")
-	V.Require("a client went away with a transaction pending; the others are served as before", "udp backend answers from another socket than it listens on", "unit: the transport table swept while transactions were pending", "CANCEL with the INVITE's branch, both answered", ">= 70 transactions completed while others stayed pending", "sent-by names the source port of another live connection", "response after a connection stayed idle for > 5 s", "a branch is a prefix of another branch of the history", "connections share a sent-by", ">=2 transactions open at once", "answered out of order", "provisional before final", "non-INVITE with provisional", "support:off", "support:on", "tcp backend", "udp backend")
+	V.Require("response with all Via values on one line", "a client went away with a transaction pending; the others are served as before", "udp backend answers from another socket than it listens on", "unit: the transport table swept while transactions were pending", "CANCEL with the INVITE's branch, both answered", ">= 70 transactions completed while others stayed pending", "sent-by names the source port of another live connection", "response after a connection stayed idle for > 5 s", "a branch is a prefix of another branch of the history", "connections share a sent-by", ">=2 transactions open at once", "answered out of order", "provisional before final", "non-INVITE with provisional", "support:off", "support:on", "tcp backend", "udp backend")
 	rcheck(t, "a-minute-later", V.N(300, 3000), func(rt *rapid.T) {
 		V.Class("unit: the transport table swept while transactions were pending")
 		if f := c12AMinuteLater(rt); f != "" {
@@ -353,6 +353,10 @@ func TestC12(t *testing.T) {
 					toTag = "t" + tx.ID
 				}
 				resp := buildResponse(tx.At.msg, code, "Answer", toTag, "")
+				if rapid.IntRange(0, 3).Draw(rt, "the backend writes all Via values on one line") == 0 {
+					resp = joinViaLines(resp, rapid.SampledFrom([]string{"Via", "v", "VIA"}).Draw(rt, "name"), rapid.SampledFrom([]string{",", ", "}).Draw(rt, "separator"))
+					V.Class("response with all Via values on one line")
+				}
 				hist = append(hist, fmt.Sprintf("backend answers %s (%s of c%d) with %d", tx.ID, tx.Method, tx.Conn, code))
 				V.Journal(t.Name()+"/histories", hist)
 				var send func([]byte) error
